@@ -14,7 +14,7 @@ ID = "C08"
 TITLE = "The optimizers implement their published algorithms"
 PROPS_FILE = "Props/Properties_C08.v"
 LEVEL = "proof"
-SIZES = {"quick": 420, "thorough": 6000}
+SIZES = {"quick": 1800, "thorough": 20000}
 PARALLEL = True
 SHARD = 30
 COQ_TIMEOUT = 900
@@ -820,11 +820,63 @@ def classify(case, obs):
         if repl:
             tags.append("replacement")
         nontrivial = True
+    elif k in ("nm", "nmapi"):
+        from harness.props.c08_ref import ref_fmin
+        n = len(case["x0"])
+        tags += ["dim:%d" % n, "obj:" + case["obj"]["fam"], "stop:warnflag=%d" % obs["warnflag"],
+                 "xtol:%g" % case["xtol"], "ftol:%g" % case["ftol"]]
+        if any(v == 0.0 for v in case["x0"]):
+            tags.append("x0-has-zero-coordinate")
+        r = ref_fmin(objective(case["obj"]), case["x0"], xtol=case["xtol"], ftol=case["ftol"], maxiter=case["maxiter"],
+                     maxfun=case["maxfun"], zdelt=MYSTIC_ZDELT)
+        for kd in set(r["kinds"]):
+            tags.append("nm-move:" + kd)
+        for site, cnt in r["ties"].items():
+            if cnt:
+                tags.append("tie:nm:" + site)
+        # did the observed order among tied vertices differ from a stable sort?  (numpy.argsort is not stable)
+        for p_, e_ in obs["sims"]:
+            if len(set(e_)) < len(e_):
+                tags.append("tie:nm:simplex-with-equal-energies"); break
+        nontrivial = obs["iter"] > 1
+    elif k == "powell":
+        n = len(case["x0"])
+        tags += ["dim:%d" % n, "obj:" + case["obj"]["fam"], "stop:warnflag=%d" % obs["warnflag"], "ftol:%g" % case["ftol"],
+                 "direc:" + ("custom" if case.get("direc") else "identity")]
+        if any(r["f0"] is not None and r["fret"] > r["f0"] for r in obs["ls"]):
+            tags.append("oracle-hypothesis-violated:fret>f(current)")
+        ident = [[1.0 if i == j else 0.0 for j in range(n)] for i in range(n)]
+        if obs["direc"] != (case.get("direc") or ident):
+            tags.append("powell:direction-replaced")
+        if obs["iter"] == 2:
+            tags.append("powell:iter=2")
+        from harness.props.c08_ref import ref_fmin_powell
+        import mystic._scipy060optimize as bundled
+        r = ref_fmin_powell(objective(case["obj"]), case["x0"], bundled.brent, xtol=case["xtol"], ftol=case["ftol"],
+                            maxiter=case["maxiter"], maxfun=case["maxfun"], direc=case.get("direc"), first_test=False)
+        for site, cnt in r["ties"].items():
+            if cnt:
+                tags.append("powell:" + site)
+        nontrivial = obs["iter"] >= 1 and len(obs["ls"]) > 0
     return json.dumps(case, sort_keys=True), nontrivial, tags
 
 
 def shrink(case):
     k = case["kind"]
+    if k in ("nm", "nmapi", "powell"):
+        n = len(case["x0"])
+        if case["maxiter"] is None or case["maxiter"] > 1:
+            for m in (1, 2, 3, 5, 10, 20):
+                if case["maxiter"] is None or m < case["maxiter"]:
+                    yield dict(case, maxiter=m)
+        if n > 1 and not case.get("direc"):
+            for j in range(n):
+                o = dict(case["obj"], c=case["obj"]["c"][:j] + case["obj"]["c"][j + 1:], w=case["obj"]["w"][:j] + case["obj"]["w"][j + 1:])
+                yield dict(case, x0=case["x0"][:j] + case["x0"][j + 1:], obj=o)
+        for j in range(n):
+            for v in (1.0, 0.5):
+                if case["x0"][j] != v and case["x0"][j] not in (0.0, 1.0):
+                    yield dict(case, x0=case["x0"][:j] + [v] + case["x0"][j + 1:])
     if k == "degen" and case["gens"] > 1:
         yield dict(case, gens=case["gens"] - 1)
     if k == "strategy":
